@@ -37,6 +37,34 @@ func runC19(c *Ctx) {
 	r.Rule("reply-only", "echoNotify only for valid echo replies of the matching protocol, with that reply's id", 2)
 	r.Rule("id-critical-section", "id allocation and registration in one critical section", 4)
 	r.Rule("result", "nil result iff the reply was received", 3)
+	// identifiers of pings in flight stay distinct: the counter only moves forward (handing an identifier back after a
+	// failed send re-issues the identifier of a ping that registered in between)
+	r.Rule("id-monotone", "the echo identifier counter is only ever incremented", 2)
+	for _, fn := range c.P.LibFunctions() {
+		if fn.Name() == "init" {
+			continue // the initial value of the counter
+		}
+		kgm := core.NewKeyGen()
+		core.EachInstr(fn, func(i ssa.Instruction) {
+			st, ok := i.(*ssa.Store)
+			if !ok || !strings.HasSuffix(norm(st.Addr), "icmpTable.id") {
+				return
+			}
+			good := false
+			if bo, isB := st.Val.(*ssa.BinOp); isB && bo.Op == token.ADD {
+				if k, isC := bo.Y.(*ssa.Const); isC && k.Value != nil && k.Int64() > 0 && strings.HasSuffix(norm(bo.X), "icmpTable.id") {
+					good = true
+				}
+			}
+			s2 := core.Proved
+			if !good {
+				s2 = core.Violated
+			}
+			key := strings.TrimSuffix(kgm.Key("id-monotone "+core.FuncName(fn)), "#0")
+			r.Add(core.Obligation{Rule: "id-monotone", Key: key, Func: core.FuncName(fn), Pos: c.P.Pos(core.PosOf(i)), Status: s2,
+				Basis: "icmpTable.id = icmpTable.id + positive constant", Detail: "the identifier counter is assigned " + norm(st.Val) + ": an identifier that a pending ping holds can be issued again (its waiter is overwritten, its reply completes the other ping)"})
+		})
+	}
 
 	fns := c.P.LibFunctions()
 	an := locks.Analyse(c.P, fns, isConstructor)
